@@ -9,6 +9,8 @@ use std::sync::{Arc, Mutex};
 mod fifo;
 mod revoke_dup;
 mod dead_target;
+mod runner;
+mod once;
 
 fn main()
 {
@@ -19,6 +21,8 @@ fn main()
         "fifo" => fifo::run(&args[1..]),
         "revoke_dup" => revoke_dup::run(&args[1..]),
         "dead_target" => dead_target::run(&args[1..]),
+        "runner" => runner::run(&args[1..]),
+        "once" => once::run(&args[1..]),
         _ => { eprintln!("unknown scenario {}", args[0]); std::process::exit(3); }
     };
     println!("{}", res.json);
